@@ -93,10 +93,12 @@ class Atmo:  # pylint: disable=too-many-instance-attributes
         """
         self._initializing = True
         self._altitude = PreferredUnits.distance(altitude or 0)
-        self._pressure = PreferredUnits.pressure(pressure or Atmo.standard_pressure(self.altitude))
-        self._temperature = PreferredUnits.temperature(temperature or Atmo.standard_temperature(self.altitude))
+        self._pressure = PreferredUnits.pressure(
+            pressure if pressure is not None else Atmo.standard_pressure(self.altitude))
+        self._temperature = PreferredUnits.temperature(
+            temperature if temperature is not None else Atmo.standard_temperature(self.altitude))
         # If powder_temperature not provided we use atmospheric temperature:
-        self._powder_temp = PreferredUnits.temperature(powder_t or self.temperature)
+        self._powder_temp = PreferredUnits.temperature(powder_t if powder_t is not None else self.temperature)
         self._t0 = self.temperature >> Temperature.Celsius
         self._p0 = self.pressure >> Pressure.hPa
         self._a0 = self.altitude >> Distance.Foot
@@ -368,7 +370,7 @@ class Vacuum(Atmo):
     def __init__(self, 
                  altitude: Optional[Union[float, Distance]] = None,
                  temperature: Optional[Union[float, Temperature]] = None):
-        super().__init__(altitude, 0, temperature, 0)
+        super().__init__(altitude, None, temperature, 0)
         self.cLowestTempC = cDegreesCtoK
         self._pressure = PreferredUnits.pressure(0)
         self._density_ratio = 0
@@ -426,7 +428,8 @@ class Wind:
         self.MAX_DISTANCE_FEET = float(max_distance_feet or cMaxWindDistanceFeet)
         self.velocity = PreferredUnits.velocity(velocity or 0)
         self.direction_from = PreferredUnits.angular(direction_from or 0)
-        self.until_distance = PreferredUnits.distance(until_distance or Distance.Foot(self.MAX_DISTANCE_FEET))
+        self.until_distance = PreferredUnits.distance(
+            until_distance if until_distance is not None else Distance.Foot(self.MAX_DISTANCE_FEET))
 
     @property
     def vector(self) -> Vector:
